@@ -203,6 +203,18 @@ pub fn c09_check(scn: &Scenario, h: &History) -> Outcome {
                             }
                         }
                     }
+                } else if stop_ret != usize::MAX {
+                    // registered while the shutdown was under way, or after it: "every registered
+                    // subscriber" is still released exactly once - by the time both stop() and its
+                    // own registration (or an earlier unsubscribe()) have returned
+                    out.class("registered-during-or-after-shutdown");
+                    let deadline = stop_ret.max(ar).min(iv.unsub_ret.unwrap_or(usize::MAX).max(ar));
+                    if !unsubs.iter().any(|u| *u <= deadline) {
+                        out.viol(format!(
+                            "subscriber {} ({:?}) was registered at @{} while / after the store shut down (stop() returned at @{}) and had not received on_unsubscribe when both had returned",
+                            sub, kind, ar, stop_ret
+                        ));
+                    }
                 }
             }
         }
